@@ -940,7 +940,6 @@ async fn sign_websocket_upgrade_sigv4(request_builder: http::request::Builder, s
     Ok(signed_request_builder)
 }
 
-#[cfg(feature = "testing")]
 /// Verification accessors.  Compiled only with the `verif` cargo feature; add-only.
 #[cfg(feature = "verif")]
 #[allow(missing_docs)]
@@ -977,6 +976,7 @@ pub mod verif {
     }
 }
 
+#[cfg(feature = "testing")]
 #[cfg(test)]
 mod testing {
     use gneiss_mqtt::error::GneissResult;
